@@ -132,6 +132,9 @@ example : Exact (U9.ops : ADOps ℝ 9) := unrolled_exact.2.2.2.2.2.2.2.2.1
 /-- the hypotheses of `math_derivs` for sqrt at an Evaluation with value 4 -/
 example : UnFn.sqrt.dom ((fun _ => 4 : Fin 3 → ℝ) 0) := by simp [UnFn.dom]
 
+/-- `variants_agree` at IEEE doubles: the unrolled and the loop form are the same Float function -/
+example : (U9.ops : ADOps Float 9) = L.ops := variants_agree.2.2.2.2.2.2.2.2.1
+
 /-- slot 7 of Evaluation9's product, as the property text spells it -/
 example (a b : Fin 10 → ℝ) : (U9.ops : ADOps ℝ 9).mul a b 7 = a 7 * b 0 + b 7 * a 0 := rfl
 
